@@ -264,6 +264,10 @@ func (c *Client) Wait() error {
 // termination (Close, DISCONNECT from the gateway) before they completed.
 var ErrTerminated = errors.New("client terminated")
 
+// ErrEmptyTopic is returned by Register, Subscribe and Unsubscribe for an empty
+// topic name: a packet carrying it cannot be decoded by the receiver.
+var ErrEmptyTopic = errors.New("empty topic name")
+
 // terminated waits until the client is terminated and returns the reason: an
 // interrupted API call did not succeed.
 func (c *Client) terminated() error {
@@ -356,6 +360,9 @@ func (c *Client) Connect() error {
 
 // Register sends a REGISTER packet to the MQTT-SN gateway.
 func (c *Client) Register(topic string) error {
+	if topic == "" {
+		return ErrEmptyTopic
+	}
 	msgID, _ := c.msgID.Next()
 	transaction := newRegisterTransaction(c, msgID, topic)
 	register := pkts1.NewRegister(0, topic)
@@ -395,6 +402,9 @@ func (c *Client) subscribe(topicName string, topicIDType uint8, topicID uint16, 
 // long, it's treated as a short topic. The received packets are passed to the
 // provided callback.
 func (c *Client) Subscribe(topic string, qos uint8, callback MessageHandlerFunc) error {
+	if topic == "" {
+		return ErrEmptyTopic
+	}
 	if pkts.IsShortTopic(topic) {
 		return c.subscribe("", pkts1.TIT_SHORT, pkts.EncodeShortTopic(topic), qos, callback)
 	} else {
@@ -429,6 +439,9 @@ func (c *Client) unsubscribe(topicName string, topicIDType uint8, topicID uint16
 // Unsubscribe unsubscribes from a topic. If the topic is 2 characters long,
 // it's treated as a short topic.
 func (c *Client) Unsubscribe(topic string) error {
+	if topic == "" {
+		return ErrEmptyTopic
+	}
 	if pkts.IsShortTopic(topic) {
 		return c.unsubscribe("", pkts1.TIT_SHORT, pkts.EncodeShortTopic(topic))
 	} else {
